@@ -7,7 +7,7 @@
 From Coq Require Import Reals Lra List.
 From Coquelicot Require Import Coquelicot.
 Require Import Cox.Num.Ops Cox.Model.Curved Cox.Model.Special Cox.Gen.Scalars
-  Cox.Thm.GenScalarsThm Cox.Thm.CurvedIntegrals.
+  Cox.Thm.GenScalarsThm Cox.Thm.CurvedIntegrals Cox.Thm.PerimeterThm.
 Local Open Scope R_scope.
 
 (* ---------- the code's closed forms are the defining integrals ---------- *)
@@ -103,6 +103,15 @@ Proof.
   intros. repeat split.
   - apply ellipse_eccentricity_symmetric. - apply ellipse_perimeter_symmetric.
 Qed.
+(* the perimeter formula of the source, 4 a E(e^2) (definition regenerated from the source), is four times the arc length
+   of the quarter ellipse gamma(t) = (a sin t, b cos t), 0 <= t <= pi/2, whose speed is sqrt((a cos t)^2 + (b sin t)^2) *)
+Theorem C10_ellipse_perimeter_is_arc_length :
+  forall a b cx cy cz, 0 < b -> b <= a ->
+    ellipse_perimeter a b cx cy cz
+    = 4 * @Coquelicot.RInt.RInt Coquelicot.Hierarchy.R_CompleteNormedModule (fun t => sqrt ((a * cos t) ^ 2 + (b * sin t) ^ 2)) 0 (PI / 2).
+Proof. exact ellipse_perimeter_is_arc_length. Qed.
+Print Assumptions C10_ellipse_perimeter_is_arc_length.
+
 Theorem C10_iq_at_most_one_partial :
   forall a b cx cy cz, ellipse_iq a b cx cy cz <= 1 /\ forall r, circle_iq r cx cy cz = 1 /\ sphere_iq r cx cy cz = 1.
 Proof. intros. split; [apply gen_ellipse_iq_le_1 | intros; split; reflexivity]. Qed.
